@@ -200,18 +200,69 @@ fn solo(v: &Value) -> Result<CaseReport, String> {
     run_solo(v, report_wrapped)
 }
 
+/// A version-3 file grown past its 109th FAT sector (the header DIFAT is full and a DIFAT
+/// sector is added) - the rarely taken table-growth writes - under the in-memory backend and
+/// under short counts / Interrupted: same results, byte-identical images.
+fn big_file_chunking(_ctx: &Ctx, ev: &mut Value) -> Option<Violation> {
+    let raw = |s: &str| PathSpec::Raw(s.to_string());
+    let c = C18Case {
+        pool: vec![],
+        ops: vec![
+            Op::CreateStream { p: raw("/big"), data: DataSpec { len: 7_200_000, seed: 3 } },
+            Op::CreateStorage { p: raw("/st") },
+            Op::CreateStream { p: raw("/st/small"), data: DataSpec { len: 300, seed: 4 } },
+            Op::SetLen { p: raw("/big"), len: LenSpec::Abs(7_400_000) },
+            Op::ReadAll { p: raw("/st/small") },
+            Op::Reopen { strict: true },
+            Op::Overwrite { p: raw("/big"), frac: 40000, data: DataSpec { len: 70_000, seed: 9 } },
+        ],
+        chops: vec![vec![200, 130, 150, 40, 10, 255, 180, 129, 224], vec![129, 130, 5, 131]],
+    };
+    let what = "V3 file grown to 7.4 MB (110+ FAT sectors, first DIFAT sector) under memory and choppy backends";
+    let viol = |f: Fail, trace: Vec<String>| Violation { key: f.key, detail: format!("[{}] {}", what, f.detail), case: serde_json::json!({"scenario": what}), trace: trace.into_iter().rev().take(12).rev().collect() };
+    let mut runs = 0u64;
+    for &mb in &[None, Some(1024u32)] {
+        let mut images: Vec<(String, Vec<u8>)> = Vec::new();
+        let mut variants: Vec<(String, Oracles)> = vec![("memory".into(), Oracles::default())];
+        for (i, ch) in c.chops.iter().enumerate() {
+            variants.push((format!("choppy_{}", i), Oracles { chop: Some(ch.clone()), ..Oracles::default() }));
+        }
+        for (label, o) in variants {
+            runs += 1;
+            match one_run(&c, 3, mb, o, &label) {
+                Err((f, trace)) => {
+                    if f.key.starts_with("harness|") {
+                        return Some(Violation { key: f.key, detail: f.detail, case: Value::Null, trace: vec![] });
+                    }
+                    return Some(viol(f, trace));
+                }
+                Ok(out) => images.push((label, out.image)),
+            }
+        }
+        for (label, img) in images.iter().skip(1) {
+            if img != &images[0].1 {
+                let a = &images[0].1;
+                let first = a.iter().zip(img.iter()).position(|(x, y)| x != y).unwrap_or(a.len().min(img.len()));
+                return Some(viol(Fail::new("image_differs|choppy|big_file", format!("[max_buffer_size {:?}] final image of '{}' differs from '{}': lengths {} vs {}, first difference at offset {}", mb, label, images[0].0, img.len(), a.len(), first)), vec![]));
+            }
+        }
+    }
+    ev["coverage"]["big_file_chunking_runs"] = serde_json::json!(runs);
+    None
+}
+
 pub fn def() -> PropDef {
     PropDef {
         id: "C18",
         level: "exploration",
-        rule: "histories of namespace/content/metadata ops and chunking-independent handle composites (write_all, read_exact, read_to_end, seek, set_len, flush, len, position), every new storage's times pinned through the public setters; each history runs under V3 and V4 x max_buffer_size in {0,1024,1500,65536,default} x backends {in-memory run 1, in-memory run 2, real std::fs::File in a scratch directory (with the history's reopen ops closing and reopening the path), choppy backend with generated short read/write counts and spurious Interrupted (3 plans per case)}; all results are compared with the model in every run (so they are equal across all runs), and within one (version, buffer size) the final images must be byte-identical; the final image is also opened through cfb::open(path). evaluations = executions. Non-trivial = history with a mini stream, a stream > 8 KiB and a removal, in which the choppy backend delivered a short read, a short write and an Interrupted; distinct = distinct case JSON.",
+        rule: "histories of namespace/content/metadata ops and chunking-independent handle composites (write_all, read_exact, read_to_end, seek, set_len, flush, len, position), every new storage's times pinned through the public setters; each history runs under V3 and V4 x max_buffer_size in {0,1024,1500,65536,default} x backends {in-memory run 1, in-memory run 2, real std::fs::File in a scratch directory (with the history's reopen ops closing and reopening the path), choppy backend with generated short read/write counts and spurious Interrupted (3 plans per case)}; all results are compared with the model in every run (so they are equal across all runs), and within one (version, buffer size) the final images must be byte-identical; the final image is also opened through cfb::open(path); for version 4 the real file is made by cfb::create(path) on a path that already holds a longer file of other bytes. A scenario step grows a version-3 file to 7.4 MB (first DIFAT sector) under the in-memory backend and two chop plans x 2 buffer sizes. evaluations = executions. Non-trivial = history with a mini stream, a stream > 8 KiB and a removal, in which the choppy backend delivered a short read, a short write and an Interrupted; distinct = distinct case JSON.",
         assumptions: &["Interrupted is injected on read and write only and never twice in a row (std's retry loops make progress); seek is not interruptible in std's contract"],
         quick_cases: 70,
         thorough_cases: 1500,
         worker,
         solo,
         hang_cpu_s: 120.0,
-        extra: None,
+        extra: Some(big_file_chunking),
         confirm_known: false,
     }
 }
